@@ -5,7 +5,7 @@ import itertools
 import random
 import warnings
 
-from sim import compare, popgen
+from sim import compare, popgen, userlib
 
 INDEX_KINDS = ["default", "default", "reversed", "shuffled", "strings", "floats", "duplicated", "multi", "offset"]
 FORMS = ["frame", "frame", "frame", "dict"]
@@ -231,6 +231,7 @@ def explore(run_seed: int, cfg: dict) -> dict:
     out = {"date": date, "cases": [], "violations": [], "setup": "ok"}
     try:
         params, functions = set_up_policy_environment(date)
+        functions = {**functions, **userlib.user_rules()}
     except Exception as e:  # noqa: BLE001
         out["setup"] = type(e).__name__
         return out
@@ -351,6 +352,7 @@ def exhaustive(run_seed: int, cfg: dict) -> dict:
     out = {"date": date, "pops": 0, "orders": 0, "violations": [], "sigs": [], "setup": "ok"}
     try:
         params, functions = set_up_policy_environment(date)
+        functions = {**functions, **userlib.user_rules()}
     except Exception as e:  # noqa: BLE001
         out["setup"] = type(e).__name__
         return out
@@ -513,6 +515,7 @@ def replay_case(case: dict) -> dict:
 
     warnings.simplefilter("ignore")
     params, functions = set_up_policy_environment(case["date"])
+    functions = {**functions, **userlib.user_rules()}
     types = popgen.input_types()
     graph, _ = compare.full_graph(popgen.to_frame({"cols": case["cols"]}, types=types), params, functions)
     if graph is None:
